@@ -207,6 +207,7 @@ func (pool *c04Pool) runAll(cases <-chan *c04Case, emit func(c *c04Case, res c04
 				res, alive := p.run(c, pool.timeout)
 				if !alive {
 					p = nil
+					c04AttachIR(c, &res)
 				}
 				mu.Lock()
 				emit(c, res)
@@ -215,6 +216,15 @@ func (pool *c04Pool) runAll(cases <-chan *c04Case, emit func(c *c04Case, res c04
 		}()
 	}
 	wg.Wait()
+}
+
+// a dead worker cannot report the IR it was working on: regenerate it here (same generator)
+func c04AttachIR(c *c04Case, res *c04Result) {
+	if c.Kind == "run" || res.Extra != "" {
+		return
+	}
+	defer func() { _ = recover() }()
+	res.Extra = virSchemas(c04GenIR(c))
 }
 
 func c04Verdict(res c04Result) string {
